@@ -34,10 +34,14 @@ type State struct {
 	Reach *smt.Term
 	Heaps map[string]*smt.Term // heap name -> current array term (absent = initial)
 	Alloc *smt.Term            // BV64 allocation counter
+	// Gen > 0: everything was havocked ("modifies *") at some point before; a heap that is absent from Heaps then
+	// stands for the unconstrained constant of that generation, not for the function-entry heap. (A heap can be
+	// absent because no instruction had touched it when the havoc happened.)
+	Gen int
 }
 
 func (s *State) clone() *State {
-	n := &State{Reach: s.Reach, Alloc: s.Alloc, Heaps: make(map[string]*smt.Term, len(s.Heaps))}
+	n := &State{Reach: s.Reach, Alloc: s.Alloc, Gen: s.Gen, Heaps: make(map[string]*smt.Term, len(s.Heaps))}
 	for k, v := range s.Heaps {
 		n.Heaps[k] = v
 	}
@@ -46,16 +50,18 @@ func (s *State) clone() *State {
 
 // Obligation is one proof obligation: Guard => Cond must be valid.
 type Obligation struct {
-	ID     string
-	Kind   string
-	Props  []string
-	Text   string
-	Func   string
-	Pos    string
-	Guard  *smt.Term
-	Cond   *smt.Term
-	Model  []*smt.Term // terms whose model values are wanted on failure
-	MNames []string
+	ID    string
+	Kind  string
+	Props []string
+	Text  string
+	Func  string
+	Pos   string
+	Guard *smt.Term
+	Cond  *smt.Term
+	Model []*smt.Term // terms whose model values are wanted on failure
+	// quantified entry facts left out of this obligation's query (proof hint "use:"; dropping assumptions is sound)
+	DropAxioms map[int]bool
+	MNames     []string
 }
 
 // Enc encodes one top-level function (with everything it inlines).
@@ -85,15 +91,20 @@ type Enc struct {
 	allocSites  []allocSite
 	UsedTypeInv map[string]bool
 	// replay support: named terms whose model values describe a concrete failing input
-	Witness []WitTerm
-	Shaping []*smt.Term // constraints that keep a counterexample executable (lengths <= N)
-	quantCache map[int]bool
-	Prop       string // property being checked ("" / "all": every clause is active)
-	loopFramed map[*ssa.BasicBlock][]loopFrame
-	loopAlloc  map[*ssa.BasicBlock]*smt.Term
-	phiEntry   map[*ssa.Phi]*smt.Term
-	loopHead   map[*ssa.BasicBlock]map[string]*smt.Term
-	callSeq int
+	Witness        []WitTerm
+	Shaping        []*smt.Term // constraints that keep a counterexample executable (lengths <= N)
+	quantCache     map[int]bool
+	Prop           string // property being checked ("" / "all": every clause is active)
+	loopFramed     map[*ssa.BasicBlock][]loopFrame
+	sortSeq        int
+	genSeq         int
+	entryInvAxioms map[int]string
+	zeroOffPhi     map[*ssa.Phi]bool
+	rangeDom       map[*ssa.Range]*smt.Term // domain of the map at the start of each map iteration
+	loopAlloc      map[*ssa.BasicBlock]*smt.Term
+	phiEntry       map[*ssa.Phi]*smt.Term
+	loopHead       map[*ssa.BasicBlock]map[string]*smt.Term
+	callSeq        int
 }
 
 // WitTerm is one named witness term.
@@ -191,7 +202,43 @@ func (e *Enc) heap(st *State, name string, s *smt.Sort) *smt.Term {
 	if t, ok := st.Heaps[name]; ok {
 		return t
 	}
-	return e.initHeap(name)
+	return e.defaultHeap(st, name)
+}
+
+// defaultHeap: the value of a heap that no instruction on this path has touched: the function-entry heap, or - after a
+// "modifies *" havoc - the unconstrained heap constant of that havoc generation.
+func (e *Enc) defaultHeap(st *State, name string) *smt.Term {
+	if st.Gen == 0 {
+		return e.initHeap(name)
+	}
+	s, ok := e.hsorts[name]
+	if !ok {
+		if s = e.P.heapSortByName(name); s == nil {
+			unsupported("heap %s read after a modifies-* havoc before its sort is known", name)
+		}
+		e.hsorts[name] = s
+	}
+	return e.C.Const(fmt.Sprintf("H@%d:%s", st.Gen, name), s)
+}
+
+// havocAll models "modifies *": every heap, touched so far or not, becomes unconstrained. The object type tags,
+// the local ghosts of the function under verification and the iteration ghosts are kept (a callee can neither retype
+// an object nor see those).
+func (e *Enc) havocAll(st *State) {
+	keep := map[string]*smt.Term{}
+	for h, t := range st.Heaps {
+		if h == "ghost:objtype" || strings.HasPrefix(h, "lghost:") || strings.HasPrefix(h, "iter:") {
+			keep[h] = t
+		}
+	}
+	if _, ok := keep["ghost:objtype"]; !ok {
+		if s, ok := e.hsorts["ghost:objtype"]; ok {
+			keep["ghost:objtype"] = e.heap(st, "ghost:objtype", s)
+		}
+	}
+	e.genSeq++
+	st.Gen = e.genSeq
+	st.Heaps = keep
 }
 
 func (e *Enc) setHeap(st *State, name string, t *smt.Term) {
@@ -221,6 +268,20 @@ func (e *Enc) slObj(s *smt.Term) *smt.Term { return e.C.Extract(255, 192, s) }
 func (e *Enc) slOff(s *smt.Term) *smt.Term { return e.C.Extract(191, 128, s) }
 func (e *Enc) slLen(s *smt.Term) *smt.Term { return e.C.Extract(127, 64, s) }
 func (e *Enc) slCap(s *smt.Term) *smt.Term { return e.C.Extract(63, 0, s) }
+
+// baseSliceHeap: the field heap hn carries the type invariant "off(v) == 0".
+func (e *Enc) baseSliceHeap(hn string) bool {
+	for _, ti := range e.P.Inv[hn] {
+		if ti.Kind == "field" && strings.ReplaceAll(ti.Pred, " ", "") == "off(v)==0" {
+			if e.UsedTypeInv != nil {
+				e.UsedTypeInv[ti.Kind+" "+ti.Path+" : "+ti.Pred] = true
+			}
+			return true
+		}
+	}
+	return false
+}
+
 func (e *Enc) mkSlice(obj, off, ln, cp *smt.Term) *smt.Term {
 	return e.C.Concat(obj, off, ln, cp)
 }
@@ -392,7 +453,12 @@ func (e *Enc) load(st *State, loc *Loc) *smt.Term {
 		}
 		hn := fieldHeap(loc.Root, loc.Path)
 		h := e.heap(st, hn, heapSort(sortOf(t)))
-		return c.Select(c.Select(h, obj), idx)
+		v := c.Select(c.Select(h, obj), idx)
+		if e.baseSliceHeap(hn) {
+			// type invariant "off(v) == 0" (checked at every store): read the slice with a literal zero offset
+			v = e.mkSlice(e.slObj(v), e.bv64(0), e.slLen(v), e.slCap(v))
+		}
+		return v
 	}
 	// plain cell
 	if isOpaqueStructT(t) {
@@ -796,12 +862,19 @@ func (e *Enc) mergeStates(g *smt.Term, a, b *State) *State {
 		ha, oka := a.Heaps[k]
 		hb, okb := b.Heaps[k]
 		if !oka {
-			ha = e.initHeap(k)
+			ha = e.defaultHeap(a, k)
 		}
 		if !okb {
-			hb = e.initHeap(k)
+			hb = e.defaultHeap(b, k)
 		}
 		out.Heaps[k] = c.Ite(g, ha, hb)
+	}
+	if a.Gen == b.Gen {
+		out.Gen = a.Gen
+	} else {
+		// untouched heaps differ between the two sides: a new, unconstrained generation over-approximates both
+		e.genSeq++
+		out.Gen = e.genSeq
 	}
 	out.Alloc = c.Ite(g, a.Alloc, b.Alloc)
 	out.Reach = c.Or(a.Reach, b.Reach)
